@@ -24,18 +24,18 @@ from vlib import SPEC, ToolError, log
 LEVEL = {"C01": "model_checking", "C02": "model_checking", "C03": "model_checking", "C04": "model_checking"}
 SP = SPEC / "pico"
 
-ALL_NODES = ["leaf:A", "leaf:B", "single", "top", "tsum", "outer", "byKey:0", "byKey:1", "byRef:x",
+ALL_NODES = ["leaf:A", "leaf:B", "single", "top", "tsum", "outer", "tsumL", "outerL", "byKey:0", "byKey:1", "byRef:x",
              "ofMemo", "pair", "twin:a", "twin:b", "twin:c", "twin:d"]
 
 # The switches describe the code in /repo as repaired by the fix: commits (known_findings.json).
-FIXES = {"FixAbsent": "TRUE", "FixEqWrite": "TRUE", "FixTopLevel": "TRUE", "SharedKeys": "FALSE"}
+FIXES = {"FixAbsent": "TRUE", "FixEqWrite": "TRUE", "FixTopLevel": "TRUE", "FixVerifyRegs": "TRUE", "SharedKeys": "FALSE"}
 
 
 # shadow variant per configuration: which single repair is undone in the shadow design
 SHADOW_OF = {"rmgc": "absent", "dyn": "absent", "dyn6": "absent", "trk": "absent", "memo": "absent", "outer": "absent",
              "eqw": "eqwrite", "eqw5": "eqwrite",
              "gc1": "toplevel", "gc1v": "toplevel", "gc2": "toplevel", "gc2w": "toplevel", "gc3": "toplevel",
-             "twin": "shared", "twin5": "shared", "twin6": "shared"}
+             "twin": "shared", "twin5": "shared", "twin6": "shared", "outl": "verifyregs", "outl6": "verifyregs"}
 
 
 def cfg_text(nodes, vals, maxops, capacity, maxretain=1, emit="all", shadow=None, wkeys=("A", "B", "S")):
@@ -51,6 +51,7 @@ CONSTANTS
   FixAbsent = {FIXES['FixAbsent']}
   FixEqWrite = {FIXES['FixEqWrite']}
   FixTopLevel = {FIXES['FixTopLevel']}
+  FixVerifyRegs = {FIXES['FixVerifyRegs']}
   SharedKeys = {FIXES['SharedKeys']}
   Vals = {{{vs}}}
   WriteKeys = {{{wk}}}
@@ -60,6 +61,7 @@ CONSTANTS
   SFixAbsent = {"FALSE" if shadow == "absent" else "TRUE"}
   SFixEqWrite = {"FALSE" if shadow == "eqwrite" else "TRUE"}
   SFixTopLevel = {"FALSE" if shadow == "toplevel" else "TRUE"}
+  SFixVerifyRegs = {"FALSE" if shadow == "verifyregs" else "TRUE"}
   SShared = {"TRUE" if shadow == "shared" else "FALSE"}
   Emit = "{emit}"
 VIEW View
@@ -100,16 +102,20 @@ CONFIGS = {
     "dyn6":   (["leaf:A", "leaf:B", "single", "top"], [0, 2], 5, 1, 1),
     "outer":  (["leaf:A", "leaf:B", "single", "top", "tsum", "outer"], [0, 2], 5, 2, 1),
     "gc3":    (["single", "byKey:0", "byKey:1", "top", "leaf:A", "leaf:B"], [0, 2], 5, 2, 1),
+    # memoized per-key leaves under a tracked map, with a caller that has another dependency (isograph's functions over
+    # iso_literal_map): layer B's registration of VERIFIED dependencies in the caller's frame was first seen here
+    "outl":   (["leaf:A", "leaf:B", "single", "tsumL", "outerL"], [2], 5, 2, 0, ("A", "S")),
+    "outl6":  (["leaf:A", "leaf:B", "single", "tsumL", "outerL"], [2], 6, 2, 0, ("A", "S")),
     "twin6":  (["twin:a", "twin:b", "single", "byKey:0"], [1], 6, 1, 1),      # ([1, 2]: > 1e6 states, does not finish in 25 min)
 }
 
 PLAN = {
-    ("C01", "quick"): ["dyn", "trk", "memo", "rmgc"],
+    ("C01", "quick"): ["dyn", "trk", "memo", "rmgc", "outl"],
     ("C02", "quick"): ["eqw", "dyn", "gcts"],
     ("C03", "quick"): ["gc1", "gc2", "iref"],
     ("C04", "quick"): ["twin"],
-    ("C01", "thorough"): ["dyn", "trk", "memo", "rmgc", "eqw5", "dyn6", "outer", "gc3", "iref3"],
-    ("C02", "thorough"): ["eqw5", "dyn", "trk", "dyn6", "outer", "gc1v", "iref3", "gcts"],
+    ("C01", "thorough"): ["dyn", "trk", "memo", "rmgc", "eqw5", "dyn6", "outer", "gc3", "iref3", "outl6"],
+    ("C02", "thorough"): ["eqw5", "dyn", "trk", "dyn6", "outer", "gc1v", "iref3", "gcts", "outl6"],
     ("C03", "thorough"): ["gc1v", "gc2w", "memo", "gc3", "dyn6", "outer", "iref", "iref3", "gcts"],
     ("C04", "thorough"): ["twin5", "twin6"],
 }
@@ -343,6 +349,25 @@ def run(chk: vlib.Check):
             judge(vb, tb, capacity, program, nodes, f"valgrind-{name}")
         if len(chk.cov["samples"]) < 2:
             chk.sample({"kind": "replay (TLC transition -> real crate)", "config": name, "history": obs[pool[0] if pool else 0]["ops"]})
+
+    # ---- directed histories ----------------------------------------------------------------------
+    # counterexamples TLC found on the model of an earlier design at a depth beyond what the registered configurations
+    # replay transition by transition (spec/pico/directed.json): each runs through the real crate on every run and is
+    # judged by layer A, so the defect is reported again if it returns
+    for d in json.loads((SP / "directed.json").read_text()):
+        if prop not in d["props"]:
+            continue
+        cfg = chk.work / f"MC_dir_{d['name']}.cfg"
+        cfg.write_text(cfg_text(d["nodes"], d["vals"], 0, d["capacity"], 0, emit="none", wkeys=tuple(d["wkeys"])))
+        r = vlib.tlc(SP / "MCPico.tla", cfg, workers=1, timeout=600, heap="2g", seed=chk.seed)
+        program = next((v for t, v in r.printed if t == "PROGRAM"), None)
+        if program is None:
+            raise ToolError("MCPico did not print PROGRAM (directed)")
+        dobs = run_harness(binp, program, d["capacity"], [{"ops": d["ops"]}], chk)
+        dbads = validate_traces(chk, [(0, dobs[0]["ops"])], d["capacity"], f"directed-{d['name']}")
+        judge(dbads, {0: dobs[0]["ops"]}, d["capacity"], program, d["nodes"], f"directed-{d['name']}")
+        chk.cov["directed_histories"] = chk.cov.get("directed_histories", 0) + 1
+        chk.cov["evaluations"] += 1
 
     # ---- simulation: long random histories -----------------------------------------------------
     if prop != "C04":
